@@ -150,3 +150,100 @@ Proof.
 Qed.
 
 End NetF.
+
+(* ---------------------------------------------------------------- the link to C03/Sync.v, faulty votes included *)
+From TM Require C03.Sync C03.SyncWeak.
+
+Section LinkF.
+Variable vals : valset.
+Variables h r : Z.
+Variable p : proposal.
+Variable b : block.
+Variable hb : N.
+Variable ph : psh.
+Variable sig : nat -> N -> N.
+Variable peer : nat -> N.
+Variable ms : list machine.
+Variables L2 L3 : machine -> list item.
+
+Theorem sync_round_decides_on_model_faulty (pol : list Sync.polka) (fresh : Sync.value) (mp : machine) (faulty_power : Z) :
+  pr_bid p = (hb, ph) -> b_hash b = hb -> b_valid b = true -> fst ph = 1%N ->
+  NoDup (map m_idx ms) ->
+  (forall m, In m ms -> is_validator (m_env m) = true) ->
+  (forall m, In m ms -> exists a pw, nth_error vals (m_idx m) = Some (a, pw) /\ a <> 0%N /\ 0 <= pw) ->
+  (forall m, In m ms -> ready_core (m_env m) h r p b hb ph (map m_idx ms) vals (m_state m) /\ lock_wf r b hb ph (m_state m)) ->
+  SyncWeak.InvL pol (nodes vals ms) ->
+  (forall n, In n (nodes vals ms) -> Sync.unlock pol n = n) ->
+  In mp ms ->
+  hb = Sync.proposal_of fresh (Sync.unlock pol (abs (power_of vals (m_idx mp)) (m_state mp))) ->
+  total_power vals = Sync.total_power (nodes vals ms) + faulty_power -> 0 <= faulty_power ->
+  3 * faulty_power < total_power vals ->
+  ((forall n, In n (map (Sync.unlock pol) (nodes vals ms)) -> Sync.n_lock n = None) \/
+   (exists star, Sync.is_latest pol star /\ snd star = Some hb)) ->
+  (* the faulty validators vote during the round *)
+  powers_nonneg vals ->
+  (forall m, In m ms -> forall pv pc,
+     lookup_round r (hv_sets (cs_votes (m_state m))) = Some (pv, pc) ->
+     extra hb ph (idxs ms) pv /\ extra hb ph (idxs ms) pc) ->
+  (forall m, In m ms ->
+     correct_part (L2 m) = PV vals h p b ph sig peer ms /\
+     (forall v pr, In (Faulty v pr) (L2 m) -> faulty_vote h r (idxs ms) PREVOTE v)) ->
+  (forall m, In m ms ->
+     correct_part (L3 m) = PCF vals h p b ph sig peer ms L2 /\
+     (forall v pr, In (Faulty v pr) (L3 m) -> faulty_vote h r (idxs ms) PRECOMMIT v)) ->
+  forall m, In m ms ->
+    In (ODecide h r hb) (concat (snd (run (m_env m) (m_state m) (scheduleF h p b ph L2 L3 m)))).
+Proof.
+  intros Hbid Hhash Hvalid Hone Hnd Hval Hentry Hrdy HInv Hset Hmp Hprop Htot Hf H3 Hprem Hnn Hextra HL2 HL3 m Hm.
+  assert (Hpn : In (abs (power_of vals (m_idx mp)) (m_state mp)) (nodes vals ms)).
+  { unfold nodes. apply in_map_iff. exists mp. auto. }
+  pose proof (SyncWeak.good_round_prevotes pol (nodes vals ms) hb HInv Hprem) as Un.
+  assert (Hlock : forall m0, In m0 ms -> lock_ok r b ph (m_state m0)).
+  { intros m0 Hm0.
+    assert (Hn : In (abs (power_of vals (m_idx m0)) (m_state m0)) (map (Sync.unlock pol) (nodes vals ms))).
+    { apply in_map_iff. exists (abs (power_of vals (m_idx m0)) (m_state m0)).
+      assert (Hn0 : In (abs (power_of vals (m_idx m0)) (m_state m0)) (nodes vals ms)) by (unfold nodes; apply in_map_iff; exists m0; auto).
+      split; [apply Hset; exact Hn0 | exact Hn0]. }
+    specialize (Un _ Hn). unfold Sync.prevote_of, abs in Un. cbn [Sync.n_lock] in Un.
+    unfold lock_ok. destruct (cs_lblock (m_state m0)) as [lb|] eqn:El; [|left; reflexivity].
+    right. destruct (proj2 (Hrdy m0 Hm0) lb El Un) as (-> & Lb2 & Lb3). auto. }
+  assert (Hcp : correct_power vals ms = total_power vals - faulty_power).
+  { unfold nodes in Htot. rewrite total_power_nodes in Htot. lia. }
+  assert (Epw : pw_of vals (idxs ms) = correct_power vals ms).
+  { unfold idxs. rewrite pw_of_power_of. unfold correct_power.
+    assert (forall l : list machine, (forall m0, In m0 l -> In m0 ms) ->
+              fold_right (fun m0 acc => power_at vals (m_idx m0) + acc) 0 l =
+              fold_right (fun m0 acc => power_of vals (m_idx m0) + acc) 0 l) as A.
+    { induction l as [|m0 l IH]; intro Hl; [reflexivity|]. cbn [fold_right]. rewrite IH by (intros; apply Hl; right; assumption).
+      f_equal. destruct (Hentry m0 (Hl m0 (or_introl eq_refl))) as (a & pw & Hn & _).
+      unfold power_at, power_of. rewrite Hn. rewrite (nth_error_nth _ _ (0%N, 0) Hn). reflexivity. }
+    apply A. auto. }
+  assert (Q : total_power vals * 2 / 3 < correct_power vals ms) by (apply Z.div_lt_upper_bound; lia).
+  apply (sync_schedule_decides_faulty vals h r p b hb ph sig peer ms L2 L3); try assumption.
+  - intros m0 Hm0. split; [exact (proj1 (Hrdy m0 Hm0)) | exact (Hlock m0 Hm0)].
+  - unfold quorum. lia.
+  - rewrite Epw. unfold quorum. assert (0 <= total_power vals * 2 / 3) by (apply Z.div_pos; lia). 
+    assert (total_power vals - correct_power vals ms = faulty_power) by lia.
+    (* faulty_power < 2/3 total + 1 because 3 * faulty_power < total *)
+    assert (faulty_power <= total_power vals * 2 / 3) by (apply Z.div_le_lower_bound; lia). lia.
+Qed.
+
+End LinkF.
+
+(* ---------------------------------------------------------------- Sync.v's clauses inv_lock / inv_valid from reachability *)
+From TM Require Import C03.Backed.
+
+Theorem reachable_abs_backed (E : env) (height : Z) (lc : option voteset) (ins : list input) (pw : Z) (pol : list Sync.polka) :
+  let s := fst (run E (init_state E height lc) ins) in
+  (* pol contains the polkas the machine holds *)
+  (forall rr v ph, o_maj23 (prevotes (cs_votes s) rr) = Some (Some (v, ph)) -> In (rr, Some v) pol) ->
+  (forall lr lv, Sync.n_lock (abs pw s) = Some (lr, lv) -> In (lr, Some lv) pol) /\
+  (forall vr vv, Sync.n_valid (abs pw s) = Some (vr, vv) -> In (vr, Some vv) pol).
+Proof.
+  intros s Hpol. destruct (reachable_backed E height lc ins) as [BL BV]. fold s in BL, BV.
+  unfold abs. cbn [Sync.n_lock Sync.n_valid]. split.
+  - intros lr lv H. destruct (cs_lblock s) as [lb|] eqn:El; [|discriminate]. injection H as <- <-.
+    destruct (BL lb eq_refl) as (ph & Hm). eapply Hpol. exact Hm.
+  - intros vr vv H. destruct (cs_vblock s) as [vb|] eqn:Ev; [|discriminate]. injection H as <- <-.
+    destruct (BV vb eq_refl) as (ph & Hm). eapply Hpol. exact Hm.
+Qed.
